@@ -20,7 +20,6 @@ import (
 	"path/filepath"
 	"regexp"
 	"runtime"
-	"runtime/debug"
 	"slices"
 	"sort"
 	"strconv"
@@ -465,11 +464,7 @@ func keyKind(k qkey) string {
 }
 
 func run(c *vf.Ctx) {
-	// The live heap is tiny and the code under test allocates a lot, so the default pacing
-	// would run a collection every few milliseconds on all cores: collect by limit instead.
-	debug.SetGCPercent(-1)
-	debug.SetMemoryLimit(512 << 20)
-	c.Rule("every known_hosts file of 1..D lines (D=3 quick, 4 thorough) over the line alphabet (plain, list, [host]:port, '*' and '?' wildcards, negations, hashed, @cert-authority, @revoked, comment, blank, whitespace variants, unusable lines) x every query of the query set (6 hosts x 3 ports with and without host name, remote address known/unknown) x 8 keys (3 listed keys, a fresh key, certificates signed by each listed key and by an unlisted CA); a file is non-trivial (and counted by its line indices) when its queries produce at least two different kinds of answer")
+	c.Rule("every known_hosts file of 1..2 lines over the 43-line alphabet, of 3 lines over its 30 main lines (thorough: all 43), and (thorough) of 4 lines over its 23 core lines; alphabet: (plain, list, [host]:port, '*' and '?' wildcards, negations, hashed, @cert-authority, @revoked, comment, blank, whitespace variants, unusable lines) x every query of the query set (6 hosts x 3 ports with and without host name, remote address known/unknown) x 8 keys (3 listed keys, a fresh key, certificates signed by each listed key and by an unlisted CA); a file is non-trivial (and counted by its line indices) when its queries produce at least two different kinds of answer")
 	c.Assume("keys are fixed test keys; only the salts of hashed entries depend on the seed")
 	c.Assume("certificates are queried with a host name only (CertChecker.CheckHostKey consults IsHostAuthority with the address argument); certificates carry no principals and never expire")
 	c.Assume("where the property text admits several readings (a plain key equal to a key on a matching @cert-authority line; an @revoked line whose patterns do not match the host; an unbracketed wildcard pattern that, as a whole-string OpenSSH pattern, also matches \"[host]:port\") an answer is accepted when it agrees with one consistent reading; the outcome tally says which one the code follows")
